@@ -39,6 +39,9 @@ type Program struct {
 	symIDs    map[string]int64
 	AssumedObls []AssumedObl
 	Defines     map[string]*Define
+	Ghosts      map[string]*GhostVar
+	guards      map[string]*GuardInfo
+	guardList   []*GuardInfo
 }
 
 func shortName(s string) string {
@@ -433,9 +436,9 @@ func (p *Program) callMods0(c *ssa.CallCommon, out map[string]string) {
 				if m, ok := types.Unalias(c.Args[0].Type()).Underlying().(*types.Map); ok {
 					func() {
 						defer func() { recover() }()
-						mp, mv := mapHeapNames(m)
+						// delete / clear change which keys are present, not the stored values
+						mp, _ := mapHeapNames(m)
 						out[mp] = ArraySort(SInt, ArraySort(sortOf(m.Key()), SBool))
-						out[mv] = ArraySort(SInt, ArraySort(sortOf(m.Key()), sortOf(m.Elem())))
 					}()
 				}
 			}
@@ -443,6 +446,11 @@ func (p *Program) callMods0(c *ssa.CallCommon, out map[string]string) {
 		return
 	}
 	cs := p.callees(c)
+	for _, f := range cs {
+		if fnName(f) == "time.Now" || fnName(f) == "time.Since" {
+			out["GH.clock"] = STime
+		}
+	}
 	if len(cs) == 0 {
 		// dynamic call of unknown function value / external interface method: havoc what is reachable from args
 		if c.IsInvoke() {
@@ -454,6 +462,13 @@ func (p *Program) callMods0(c *ssa.CallCommon, out map[string]string) {
 		return
 	}
 	for _, f := range cs {
+		if ct := p.Contracts[fnName(f)]; ct != nil && !ct.HasFrame() {
+			for _, gs := range ct.Sets {
+				if gv := p.Ghosts[gs.Name]; gv != nil {
+					out["GH.u."+gs.Name] = gv.Sort
+				}
+			}
+		}
 		if ct := p.Contracts[fnName(f)]; ct != nil && ct.HasFrame() {
 			// a contract with a frame: only what it names; resolved at call sites. Type-level approximation here:
 			for k, v := range ct.modHeapsApprox(p, f) {
